@@ -556,6 +556,15 @@ func (g *scenGen) genPos(afterTypedMulti bool) *Item {
 			t = ""
 		}
 	}
+	if pk := g.r.Peek(0x905); !afterTypedMulti && pk%12 == 0 {
+		// a positional spelled exactly like an option of the level (its name or an alias, the help flag's included),
+		// without any dash: text
+		if ks := g.node.SortedKeys(); len(ks) > 0 {
+			if k := ks[int((pk/12)%uint64(len(ks)))]; k != "-" && k != "" {
+				t = k
+			}
+		}
+	}
 	if _, isCmd := g.node.Children[t]; isCmd {
 		t = g.pay.Pos()
 	}
